@@ -857,6 +857,7 @@ def run(ck):
                 B.check_capacity(ck, t, cfg)
                 ck.guarded(lambda: btprim.check_primitives(ck, t, cfg))
                 ck.guarded(lambda: btprim.check_insert(ck, tu, t, cfg))
+                ck.guarded(lambda: btprim.check_erase(ck, tu, t, cfg))
     m = n_trees
     ck.floor("NODE-ALLOC-OWNER", 7 * m)
     ck.floor("FREE-ON-UNLINK", 2 * m)
@@ -873,3 +874,4 @@ def run(ck):
     ck.floor("NODE-CAPACITY", m)
     ck.floor("PRIMITIVE-EFFECT", 4 * m)      # eight primitives per small_traits tree
     ck.floor("INSERT-EFFECT", m)            # leaf and inner level per small_traits tree
+    ck.floor("ERASE-EFFECT", 2 * m)
